@@ -188,12 +188,54 @@ def _worker(job):
     return (src, text, problems, ('dump_module', des))
 
 
+COLLISION_MODULES = [
+    # a method and a module-level function whose names differ only by '.' vs '_'
+    "class Vec(object):\n    def norm(self):\n        \"\"\"\n        >>> m1 = 'method doctest'\n        \"\"\"\n\n"
+    "def Vec_norm():\n    \"\"\"\n    >>> m2 = 'function doctest'\n    \"\"\"\n",
+    # the second doctest of one callable and the first doctest of a callable with a numbered name
+    "def step():\n    \"\"\"\n    Example:\n        >>> m1 = 'step block 0'\n\n    Example:\n        >>> m2 = 'step block 1'\n    \"\"\"\n\n"
+    "def step_1():\n    \"\"\"\n    >>> m3 = 'step_1 block 0'\n    \"\"\"\n",
+    "def a():\n    \"\"\"\n    Example:\n        >>> m1 = 1\n\n    Example:\n        >>> m2 = 2\n\n    Example:\n        >>> m3 = 3\n    \"\"\"\n\n"
+    "def a_2():\n    \"\"\"\n    >>> m4 = 4\n    \"\"\"\n\ndef a_1_x():\n    \"\"\"\n    >>> m5 = 5\n    \"\"\"\n",
+]
+
+
+def collision_modules(ctx, tmp):
+    """modules whose doctests get similar generated names: still one test function per doctest, every statement kept"""
+    import re as _re
+    for n, src in enumerate(COLLISION_MODULES):
+        path = os.path.join(tmp, 'xdverif_c19_col%d.py' % n)
+        open(path, 'w').write(src)
+        ctx.evaluations += 1
+        try:
+            text = dump_impl(path)
+            tree = ast.parse(text)
+        except BaseException as e:      # noqa
+            ctx.violation('dump-invalid', {'what': 'dump of a module with similar callable names: %s: %s' % (type(e).__name__, str(e)[:200]), 'module_source': src,
+                          'theorem_or_correspondence': 'C19 predicates on runner.doctest_module(dump)'}, True)
+            continue
+        markers = _re.findall(r'>>> (m\d+) = ', src)
+        funcs = [x for x in tree.body if isinstance(x, ast.FunctionDef)]
+        assigned = [t.id for f in funcs for st in f.body if isinstance(st, ast.Assign) for t in st.targets if isinstance(t, ast.Name)]
+        problems = []
+        if len(funcs) != len(markers):
+            problems.append('%d test functions for %d doctests' % (len(funcs), len(markers)))
+        if sorted(assigned) != sorted(markers):
+            problems.append('statements kept %r, the doctests hold %r' % (sorted(assigned), sorted(markers)))
+        if problems:
+            ctx.violation('dump-invalid', {'what': 'module with similar callable names: ' + '; '.join(problems), 'module_source': src, 'dump': text[:2000],
+                          'theorem_or_correspondence': 'C19 predicates on runner.doctest_module(dump)'}, True)
+    for k in [k for k in sys.modules if k.startswith('xdverif_c19_col')]:
+        del sys.modules[k]
+
+
 def run(ctx):
     tmp = tempfile.mkdtemp(prefix='xdverif_c19_')
     try:
         n = 300 if ctx.tier == 'quick' else 6000
         jobs = [(tmp, i, ctx.seed * 100003 + i) for i in range(n)]
         results = common.pmap(_worker, jobs, chunksize=8)
+        collision_modules(ctx, tmp)
         reqs = [r[3] for r in results if r[3] is not None]
         ans = []
         for i in range(0, len(reqs), 500):
